@@ -352,11 +352,22 @@ func scenario(kind string, round int) (stuck string) {
 
 func main() {
 	rounds := flag.Int("rounds", 8, "rounds per component")
+	mode := flag.String("mode", "sync", "sync: the syncer components with forks and restarts | shared: code several goroutines of the node execute at once")
 	flag.Parse()
 	if os.Getenv("RACEFREE_LOG") == "" {
 		kit.Quiet()
 	}
 	rc := 0
+	if *mode == "shared" {
+		for r := 0; r < *rounds; r++ {
+			for _, p := range append(sharedStores(r), sharedHelpers(r)...) {
+				fmt.Println("RACEFREE-WRONG-VALUE", p)
+				rc = 4
+			}
+		}
+		fmt.Printf("RACEFREE done mode=shared rounds=%d rc=%d\n", *rounds, rc)
+		os.Exit(rc)
+	}
 	for _, kind := range []string{"l1info", "ger"} {
 		for r := 0; r < *rounds; r++ {
 			if s := scenario(kind, r); s != "" {
